@@ -253,3 +253,10 @@ def r14e(ctx, repo):
     ctx.check(branches_ok, "R14e", fi, w, "every constrained value is written back (allocation entry or package total)", "the constrained values are not all written back into the instructions")
     # the failure signal is not swallowed here
     ctx.check(not any(isinstance(h, ast.ExceptHandler) for h in own_nodes(fi.node)), "R14e", fi, fi.node, "FailedConstraint propagates to the objective wrapper", "constrain_instructions swallows exceptions: a failed constraint would leave the proposal unconstrained")
+
+
+def thorough(ctx):
+    from . import sweeps
+
+    sweeps.pyflakes_crossref(ctx, ctx.repo)
+    ctx.note("R14a", "cross-reference: pyflakes reports `tolerance` in constrain_sum_bounded as assigned but never used; the acceptance test actually applied is np.isclose (rtol 1e-5), looser than the stated 1e-6. Not armed: no returned allocation off by more than 1e-6 relative has been exhibited")
